@@ -53,6 +53,9 @@ var (
 	nativeDir string
 )
 
+// GlobOverride, when set, is what fileglob.Glob returns (see FileglobGlob).
+var GlobOverride []string
+
 var ErrInjected = fmt.Errorf("injected I/O error")
 
 // ---------------------------------------------------------------- harness side
@@ -457,6 +460,9 @@ func hasMeta(p string) bool { return strings.ContainsAny(p, "*?[]{}\\!") }
 
 //verif:replace github.com/goreleaser/fileglob.ContainsMatchers
 func FileglobContainsMatchers(pattern string) bool {
+	if GlobOverride != nil {
+		return true
+	}
 	if hasMeta(pattern) {
 		zz.Unsupported("glob metacharacters are outside the bound of the file-system model")
 	}
@@ -481,6 +487,12 @@ func filesBeneath(dir *Node, out []string) []string {
 //
 //verif:replace github.com/goreleaser/fileglob.Glob
 func FileglobGlob(pattern string, opts ...fileglob.OptFunc) ([]string, error) {
+	if GlobOverride != nil {
+		// a harness plays the part of a pattern WITH metacharacters: it names the
+		// (existing) files the pattern matches; everything nfpm does with the
+		// matches is then real code
+		return GlobOverride, nil
+	}
 	if hasMeta(pattern) {
 		zz.Unsupported("glob metacharacters are outside the bound of the file-system model")
 	}
